@@ -1076,6 +1076,9 @@ def solve(objfun, x0, h=None, lh=None, prox_uh=None, argsf=(), argsh=(), argspro
     if exit_info is None and params("restarts.rhoend_scale") <= 0.0:
         exit_info = ExitInformation(EXIT_INPUT_ERROR, "restarts.rhoend_scale must be strictly positive")
 
+    if exit_info is None and params("tr_radius.alpha1") >= 1.0:
+        exit_info = ExitInformation(EXIT_INPUT_ERROR, "tr_radius.alpha1 must be strictly less than 1")
+
     if exit_info is None and params("growing.safety.full_geom_step"):
         if params("growing.safety.reduce_delta"):
             exit_info = ExitInformation(EXIT_INPUT_ERROR,
